@@ -176,7 +176,7 @@ class AsyncRunnerTemplate(BaseRunner, ABC):
         )
         _validate_on_missing(on_missing)
         _validate_error_handling(error_handling)
-        _validate_max_concurrency(max_concurrency)
+        max_concurrency = _validate_max_concurrency(max_concurrency)
 
         max_iter = max_iterations if max_iterations is not None else self.default_max_iterations
         dispatcher = self._create_dispatcher(event_processors)
@@ -282,7 +282,7 @@ class AsyncRunnerTemplate(BaseRunner, ABC):
         validate_node_types(graph, self.supported_node_types)
         validate_map_compatible(graph)
         _validate_error_handling(error_handling)
-        _validate_max_concurrency(max_concurrency)
+        max_concurrency = _validate_max_concurrency(max_concurrency)
         _validate_on_internal_override(on_internal_override)
         _validate_on_missing(on_missing)
         select = _materialize_select(select)
